@@ -26,6 +26,10 @@ FAKE_MODULES = {
         # a builtin (no Require is printed for it) that is NOT an FFI package: the FFI behind it counts
         "time": {"t.go": "package time\n\nimport \"github.com/mit-pdos/gokv/grove_ffi\"\n\nfunc Stamp() uint64 {\n\treturn grove_ffi.Token()\n}\n"},
     },
+    # a second package NAMED util (different import path): two files of one package may import one each
+    "example.org/other": {
+        "util": {"u.go": "package util\n\nfunc F() uint64 {\n\treturn 11\n}\n"},
+    },
     "example.org/go-journal.v2": {
         "util": {"u.go": "package util\n\nfunc F() uint64 {\n\treturn 1\n}\n"},
         "trusted_lib": {"t.go": "package trusted_lib\n\nfunc F() uint64 {\n\treturn 2\n}\n"},
